@@ -29,7 +29,7 @@ class H0Connection:
                         )
                     )
                 elif data.endswith(b"\r\n") or event.end_stream:
-                    method, path = data.rstrip().split(b" ", 1)
+                    method, _, path = data.rstrip().partition(b" ")
                     http_events.append(
                         HeadersReceived(
                             headers=[(b":method", method), (b":path", path)],
